@@ -5,6 +5,7 @@ import (
 	"strings"
 	"testing"
 
+	"github.com/piotrnar/gocoin/client/txpool"
 	"github.com/piotrnar/gocoin/lib/btc"
 	"pgregory.net/rapid"
 	"verif/env"
@@ -32,6 +33,18 @@ func TestMain(m *testing.M) {
 		if err := json.Unmarshal(raw, &c); err != nil {
 			return err
 		}
+		s, err := sim.RunCase(c, env.Options{}, sim.Hooks{})
+		if s != nil {
+			s.Close()
+		}
+		return err
+	})
+	pbt.RegisterReplay("connect_with_client_mempool", func(raw json.RawMessage) error {
+		var c sim.Case
+		if err := json.Unmarshal(raw, &c); err != nil {
+			return err
+		}
+		defer useClientPool()()
 		s, err := sim.RunCase(c, env.Options{}, sim.Hooks{})
 		if s != nil {
 			s.Close()
@@ -88,11 +101,102 @@ func TestConnectAfterReorg(t *testing.T) {
 	connect(t, pbt.Cfg{Name: "connect_after_reorg", Quick: 500, Thorough: 5000}, forkProfile)
 }
 
-func connect(t *testing.T, cfg pbt.Cfg, p sim.Profile) {
+// The running client answers chain.TrustedTxChecker from its mempool (client/txpool.txChecker).  This test puts every
+// transaction the harness's stand-in mempool has verified into the real pool's TransactionsToSend (as a transaction
+// received from the network) and lets the client's own checker decide which block transactions skip their scripts -
+// with blocks that carry a pooled transaction in full, with another witness, or without its witness.
+func TestConnectWithClientMempool(t *testing.T) {
+	p := profile
+	p.ViolPct = 45
+	p.Viols = append(append([]string{}, sim.TxViolations...), "wit_stripped", "wit_stripped", "wit_stripped", "bad_script")
+	defer useClientPool()()
+	connectPre(t, pbt.Cfg{Name: "connect_with_client_mempool", Quick: 500, Thorough: 5000}, p, resetClientPool)
+}
+
+func resetClientPool() {
+	txpool.TxMutex.Lock()
+	txpool.TransactionsToSend = make(map[btc.BIDX]*txpool.OneTxToSend)
+	txpool.TxMutex.Unlock()
+}
+
+// useClientPool routes what the stand-in mempool vouches for into the real pool; the returned function undoes it.
+func useClientPool() func() {
+	resetClientPool()
+	sim.OnVouch = func(raw []byte) {
+		tx, _ := btc.NewTx(raw)
+		if tx == nil {
+			return
+		}
+		tx.SetHash(raw)
+		txpool.TxMutex.Lock()
+		txpool.TransactionsToSend[tx.Hash.BIdx()] = &txpool.OneTxToSend{Tx: tx}
+		txpool.TxMutex.Unlock()
+	}
+	return func() {
+		sim.OnVouch = nil
+		resetClientPool()
+	}
+}
+
+func connect(t *testing.T, cfg pbt.Cfg, p sim.Profile) { connectPre(t, cfg, p, nil) }
+
+// genCase is sim.GenCase plus, in one history of eight, one violation-free block that spends outputs of 31..34 or
+// 64..67 DIFFERENT confirmed transactions in single-input transactions (the unspent-set commit splits its work
+// into batches of 32 records), followed later by blocks that try to spend them again.
+func genCase(t *rapid.T, p sim.Profile) (c sim.Case, wide bool) {
+	c = sim.GenCase(t, p)
+	if rapid.IntRange(0, 7).Draw(t, "wide") != 0 {
+		return c, false
+	}
+	var cand []int
+	for i, op := range c.Ops {
+		if op.Kind == "block" && op.Viol == "" && !op.Hold {
+			cand = append(cand, i)
+		}
+	}
+	if len(cand) == 0 {
+		return c, false
+	}
+	// early in the history: the spendable set is then mostly the prefix's one-output coinbases, every input a
+	// different confirmed transaction
+	i := cand[rapid.IntRange(0, min(len(cand)-1, 2)).Draw(t, "wideop")]
+	n := rapid.SampledFrom([]int{31, 32, 33, 34, 64, 65, 66, 67}).Draw(t, "widen")
+	op := &c.Ops[i]
+	op.Txs = nil
+	for j := 0; j < n; j++ {
+		// selector 0: always the first of the (sorted) confirmed candidates, never an output created in this block
+		op.Txs = append(op.Txs, sim.TxSpec{Ins: []int{0},
+			Outs: []sim.OutSpec{{Fam: rapid.IntRange(0, 12).Draw(t, "widefam"), Share: 1, N: j}}, Fee: 1})
+	}
+	// enough mature coinbases: the chain tip stays at the same absolute height
+	if need := 100 + n + 8 + 20*i; c.Params.Prefix < need {
+		d := uint32(need - c.Params.Prefix)
+		if c.Params.Base >= d {
+			c.Params.Base -= d
+		}
+		c.Params.Prefix = need
+	}
+	// blocks that try to spend outputs consumed by an earlier block
+	for k := i + 1; k < len(c.Ops) && k < i+6; k++ {
+		if c.Ops[k].Kind == "block" && c.Ops[k].Viol == "" && rapid.Bool().Draw(t, "respend") {
+			c.Ops[k].Viol = "spent_earlier"
+			c.Ops[k].Arg = rapid.IntRange(0, 1<<12).Draw(t, "respendarg")
+		}
+	}
+	return c, true
+}
+
+func connectPre(t *testing.T, cfg pbt.Cfg, p sim.Profile, pre func()) {
 	pbt.Check(t, cfg, func(r *pbt.Run) {
-		c := sim.GenCase(r.T, p)
+		c, wide := genCase(r.T, p)
 		r.Case(c)
+		if wide {
+			r.Class("block_spending_31..67_distinct_transactions")
+		}
 		sim.TakeVouchedSeen()
+		if pre != nil {
+			pre()
+		}
 		s, err := sim.RunCaseOpen(c, env.Options{}, sim.Hooks{}, pbt.FindingOpen)
 		if s != nil {
 			defer s.Close()
